@@ -245,6 +245,7 @@ class World:
                 "iteration": state.get("iteration"),
                 "beta": state.get("meta", {}).get("beta"),
                 "bytes": self.sampler.serialize_checkpoint(state),
+                "live_state": state,
                 "n_beta": len(state["history"].beta),
                 "n_acc": len(state["history"].mcmc_acceptance),
                 "x": np.array(state["samples"].x, dtype=float),
@@ -509,6 +510,8 @@ def _replay_resume(cex, model, props, bad, tmp):
             src = ck["bytes"]
             if route == "dict":
                 src = pickle.loads(ck["bytes"])
+            elif route == "live_dict":
+                src = ck["live_state"]
             elif route == "file":
                 continue
             res = World(cex, model, tag=f"r{k}", rng=CRng(model, "other", 77)).build()
